@@ -600,7 +600,9 @@ func (g *Gen) pickConcurrent(k int) []int {
 		members := bySession[target]
 		var chosen []int
 		plan := map[int]string{}
-		relay := []string{"custom", "custom", "entityAdd", "entityDelete", "action", "assetAdd", "compAdd", "compDelete", "typeAdd", "subscribe"}
+		relay := []string{"custom", "custom", "entityAdd", "entityDelete", "action", "assetAdd", "compAdd", "compDelete", "typeAdd", "subscribe",
+			"compUpdate", "compUpdate", "updatePose", "unsubscribe"}
+		framed := false
 		for _, c := range live {
 			if len(chosen) == k {
 				break
@@ -615,7 +617,7 @@ func (g *Gen) pickConcurrent(k int) []int {
 			case isMember && len(chosen) == 0:
 				plan[c] = relay[g.rnd.Intn(len(relay))]
 			case isMember:
-				plan[c] = []string{"leave", "custom", "entityAdd", "leave"}[g.rnd.Intn(4)]
+				plan[c] = []string{"leave", "custom", "entityAdd", "leave", "compUpdate", "unsubscribe", "subscribe"}[g.rnd.Intn(7)]
 			default:
 				plan[c] = "enter"
 			}
@@ -642,8 +644,15 @@ func (g *Gen) pickConcurrent(k int) []int {
 				if plan[c] == "typeAdd" {
 					r.Str = shared
 				}
+				if plan[c] == "compUpdate" || plan[c] == "updatePose" {
+					framed = true
+				}
 			}
 			g.w.Recv(c, r)
+		}
+		if framed {
+			// updates wait in the scheduler for the frame: let it pass, so that they are what the handlers consume
+			g.w.Tick(target)
 		}
 		return chosen
 	}
